@@ -735,7 +735,116 @@ def rule_c20_r3(model: Model) -> RuleResult:
             extra = ''.join(sorted((cs & letters) - upper))
             r.fail(rx.func.qualname, f"pattern {rx.pattern!r}: upper-case letters not covered {miss!r}, other letters covered {extra!r}", rx.func.loc(rx.call),
                    "camelCase / PascalCase names are not cut exactly at their capital letters, so converting back to snake loses or invents words")
+    # tokenisers (findall / finditer over a word): whatever the pattern does not match is silently dropped
+    sigma = [c for c in string.ascii_letters + string.digits]
+    for rx in others:
+        if rx.what != 'find':
+            continue
+        r.instances += 1
+        try:
+            witness = _tiles_every_word(rx.parsed, sigma)
+        except _Unsupported as ex:
+            r.note(f"{rx.func.loc(rx.call)}: pattern {rx.pattern!r} uses {ex}; tiling not decided")
+            r.ok()
+            continue
+        r.sample({'tokeniser': rx.pattern, 'untiled_word': witness})
+        if witness is None:
+            r.ok()
+        else:
+            r.fail(rx.func.qualname, f"tokeniser {rx.pattern!r} does not match all of {witness!r}", rx.func.loc(rx.call),
+                   f"findall / finditer skip what the pattern does not match: characters of a name such as {witness!r} vanish from the "
+                   f"word list, so different field names are renamed to the same key and the conversion back loses them")
     return r
+
+
+class _Unsupported(Exception):
+    pass
+
+
+def _tiles_every_word(parsed: t.Any, sigma: t.Sequence[str]) -> t.Optional[str]:
+    """Is every non-empty string over ``sigma`` a concatenation of matches of the pattern (so that findall drops nothing)?
+    Thompson construction over the regex AST, Kleene star on top, subset construction; returns a shortest string that is *not* tiled,
+    or None if (R)+ is universal.  Raises _Unsupported for anchors, look-arounds and back-references."""
+    trans: t.List[t.List[t.Tuple[t.Optional[t.FrozenSet[str]], int]]] = []
+
+    def new() -> int:
+        trans.append([])
+        return len(trans) - 1
+
+    def build(items: t.Any, start: int) -> int:
+        cur = start
+        for (op, av) in items:
+            cs = _charset((op, av))
+            if op is sre_const.NOT_LITERAL:
+                cs = {c for c in ASCII if c != chr(av)}
+            if op is sre_const.ANY:
+                cs = set(ASCII) - {'\n'}
+            if cs is not None:
+                nxt = new()
+                trans[cur].append((frozenset(cs), nxt))
+                cur = nxt
+            elif op is sre_const.SUBPATTERN:
+                cur = build(av[3], cur)
+            elif op is sre_const.BRANCH:
+                end = new()
+                for alt in av[1]:
+                    s0 = new()
+                    trans[cur].append((None, s0))
+                    trans[build(alt, s0)].append((None, end))
+                cur = end
+            elif op in (sre_const.MAX_REPEAT, sre_const.MIN_REPEAT):
+                lo, hi, sub = av
+                for _ in range(min(lo, 8)):
+                    cur = build(sub, cur)
+                if hi is sre_const.MAXREPEAT or hi > 8:
+                    s0 = new()
+                    trans[cur].append((None, s0))
+                    e0 = build(sub, s0)
+                    trans[e0].append((None, s0))
+                    end = new()
+                    trans[s0].append((None, end))
+                    cur = end
+                else:
+                    end = new()
+                    trans[cur].append((None, end))
+                    for _ in range(hi - lo):
+                        cur = build(sub, cur)
+                        trans[cur].append((None, end))
+                    cur = end
+            else:
+                raise _Unsupported(str(op))
+        return cur
+
+    start = new()
+    accept = build(parsed, start)
+    trans[accept].append((None, start))     # (R)+ : after a match, start the next one
+
+    def closure(states: t.Iterable[int]) -> t.FrozenSet[int]:
+        out = set(states)
+        todo = list(out)
+        while todo:
+            x = todo.pop()
+            for (cs, y) in trans[x]:
+                if cs is None and y not in out:
+                    out.add(y)
+                    todo.append(y)
+        return frozenset(out)
+
+    first = closure([start])
+    seen = {first: ''}
+    queue = [first]
+    while queue:
+        S = queue.pop(0)
+        for ch in sigma:
+            T = closure(y for x in S for (cs, y) in trans[x] if cs is not None and ch in cs)
+            if T in seen:
+                continue
+            w = seen[S] + ch
+            seen[T] = w
+            if accept not in T:
+                return w
+            queue.append(T)
+    return None
 
 
 def rule_c20_r4(model: Model) -> RuleResult:
@@ -805,13 +914,40 @@ def rule_c20_r4(model: Model) -> RuleResult:
                 for tr in n.tries:
                     for h in tr.handlers:
                         hc = handler_classes(model, a.rename, h)
-                        if hc is None or catches(model, hc, 'ValueError'):
+                        if hc is None or catches(model, hc, 'builtins.ValueError'):
                             caught = h
     if caught is not None:
         r.fail(a.rename.qualname, 'the splitter is called under a handler that catches ValueError', a.rename.loc(caught),
                "the refusal of an unsplittable name does not reach the caller")
     else:
         r.ok()
+    # ... and the callers of rename_field inside the package let it through as well (PaneBase.dict(rename=...), make_field)
+    rq = a.rename.qualname
+    for g in model.all_functions():
+        if not isinstance(g.node, (ast.FunctionDef, ast.AsyncFunctionDef)) or g is a.rename:
+            continue
+        sites = [x for x in walk_no_nested(g.node) if isinstance(x, ast.Call) and model.resolve(x.func, g.module, g) == rq]
+        if not sites:
+            continue
+        gcfg = cfg_of(model, g)
+        for x in sites:
+            n = gcfg.node_of(x)
+            if n is None:
+                continue
+            r.instances += 1
+            r.analysed.add(g.qualname)
+            hit = None
+            for tr in n.tries:
+                for h in tr.handlers:
+                    hc = handler_classes(model, g, h)
+                    if hc is None or catches(model, hc, 'builtins.ValueError'):
+                        hit = h
+            if hit is not None:
+                r.fail(g.qualname, 'rename_field is called under a handler that catches ValueError', g.loc(hit),
+                       "a name that cannot be split into words is passed on unrenamed (or under some substitute) instead of being refused: "
+                       "keys of different styles are mixed in one output")
+            else:
+                r.ok()
     return r
 
 
@@ -841,6 +977,35 @@ def _raised_class(model: Model, f: FuncInfo, n: Node) -> t.Optional[str]:
     if q is not None and q.startswith('builtins.'):
         q = q[len('builtins.'):]
     return q
+
+
+def rule_c20_r6(model: Model) -> RuleResult:
+    """Each word between separators is split on its own: snake -> style -> snake recovers the words only if how 'AB' or 'aB' is cut does not
+    depend on what else the name contains."""
+    r = RuleResult('C20-R6', "the per-word case splitter reads nothing but the word it is given (no state of the enclosing call)", floor=1)
+    a = Anchors(model)
+    sp = a.splitter
+    outer_locals = {x.id for x in walk_no_nested(sp.node) if isinstance(x, ast.Name) and isinstance(x.ctx, ast.Store)} | set(sp.params)
+    nested = [g for g in model.all_functions() if g.parent is sp and isinstance(g.node, (ast.FunctionDef, ast.Lambda))]
+    r.analysed.add(sp.qualname)
+    if not nested:
+        r.note('the splitter has no nested per-word helper: nothing to check')
+        r.instances += 1
+        r.ok()
+        return r
+    for g in nested:
+        r.instances += 1
+        own = set(g.params) | {x.id for x in ast.walk(g.node) if isinstance(x, ast.Name) and isinstance(x.ctx, ast.Store)}
+        free = sorted({x.id for x in ast.walk(g.node) if isinstance(x, ast.Name) and isinstance(x.ctx, ast.Load)
+                       and x.id in outer_locals and x.id not in own})
+        r.sample({'helper': g.qualname, 'reads from the enclosing call': free})
+        if free:
+            r.fail(g.qualname, f"reads {free} of the enclosing call", g.loc(),
+                   "how one word is cut depends on the rest of the name: 'AB' alone and 'AB' next to a separator split differently, so a "
+                   "styled form no longer converts back to the snake_case name it came from (and distinct names collide)")
+        else:
+            r.ok()
+    return r
 
 
 def rule_c20_r5(model: Model) -> RuleResult:
